@@ -17,14 +17,14 @@ Theorem C05_channels_agree :
 Proof. exact channels_agree. Qed.
 Print Assumptions C05_channels_agree.
 
-(* Strings at a str-typed position: for EVERY string and EVERY loader (whatever the text looks like — null,
+(* Strings at a str-typed position: for EVERY string, EVERY loader and every combination of the repairs of Model/Ty.v (whatever the text looks like — null,
    1e3, [1, 2], a: b, ...) each channel of the pinned type check stores the string itself. *)
 Theorem C05_str_position_all_channels :
-  forall (yl : str -> lres) (s : str),
-    via_argv (chk yl) TStr s = AOk (VStr s) /\
-    via_env (chk yl) TStr s = AOk (VStr s) /\
-    via_object (chk yl) TStr (VStr s) = AOk (VStr s) /\
-    via_cfgenv (chk yl) TStr (VStr s) = AOk (VStr s).
+  forall (fx : fixes) (yl : str -> lres) (s : str),
+    via_argv (chk fx yl) TStr s = AOk (VStr s) /\
+    via_env (chk fx yl) TStr s = AOk (VStr s) /\
+    via_object (chk fx yl) TStr (VStr s) = AOk (VStr s) /\
+    via_cfgenv (chk fx yl) TStr (VStr s) = AOk (VStr s).
 Proof. exact str_position_all_channels. Qed.
 Print Assumptions C05_str_position_all_channels.
 
@@ -32,9 +32,9 @@ Print Assumptions C05_str_position_all_channels.
    non-string value x that the loader reads s as (`denotes`), the guard holds — so by C05_channels_agree all
    channels agree on (s, x), acceptance and rejection alike. *)
 Theorem C05_scalar_text_is_object :
-  forall (yl : str -> lres) (k : leaf) (s : str) (x : val),
-    k <> LfStr -> denotes yl s x -> x <> VNone \/ k = LfNone ->
-    guard (chk yl) (leaf_ty k) s x = true.
+  forall (fx : fixes) (yl : str -> lres) (k : leaf) (s : str) (x : val),
+    k <> LfStr -> denotes fx yl s x -> x <> VNone \/ k = LfNone ->
+    guard (chk fx yl) (leaf_ty k) s x = true.
 Proof. exact leaf_guard. Qed.
 Print Assumptions C05_scalar_text_is_object.
 
@@ -52,17 +52,17 @@ Proof. exact json_scalars_in_yaml. Qed.
 Print Assumptions C05_json_scalars_in_yaml.
 
 (* the hypotheses are satisfiable by non-trivial inputs *)
-Example C05_guard_satisfiable : guard (chk ex_yl) (TList TInt) ex_text ex_val = true.
+Example C05_guard_satisfiable : guard (chk as_is ex_yl) (TList TInt) ex_text ex_val = true.
 Proof. exact example_guard. Qed.
-Example C05_denotes_satisfiable : denotes model_yload [49;50]%N (VInt 12).
+Example C05_denotes_satisfiable : denotes as_is model_yload [49;50]%N (VInt 12).
 Proof. exact example_denotes. Qed.
 
-(* ---- the statement without its guards is false of the pinned tree -------------------------------------------- *)
+(* ---- the statement without its guards is false of the tree as pinned (`as_is`: no repair applied) -------------------------------------------- *)
 (* finding none-unchecked: int-typed key, setting None — the object / document channels store None, `--k=null`
    is rejected, although the text reads as the value and the value is a fixed point *)
 Theorem C05_none_unchecked_refuted :
   exists (t : ty) (s : str) (v : val),
-    let C := chk model_yload in
+    let C := chk as_is model_yload in
     g_reads C t s v = true /\ g_fixpt C t v = true /\
     via_object C t v = AOk VNone /\ is_ok (via_argv C t s) = false.
 Proof. exists TInt, [110;117;108;108]%N, VNone. exact none_unchecked_witness. Qed.
@@ -71,7 +71,7 @@ Proof. exists TInt, [110;117;108;108]%N, VNone. exact none_unchecked_witness. Qe
    yet the object channel stores int 1 where the command line stores float 1.0 *)
 Theorem C05_clash_key_refuted :
   exists (t : ty) (s : str) (v : val),
-    let C := chk model_yload in
+    let C := chk as_is model_yload in
     guard C t s v = true /\
     run_channel C true ChObject t s v = AOk (VInt 1) /\
     run_channel C true ChArgv t s v = AOk (VFloat (FFin 1 0)).
@@ -81,7 +81,7 @@ Proof. exists TFloat, [49]%N, (VInt 1). exact clash_key_witness. Qed.
    Literal membership by type-and-value the guard holds again *)
 Theorem C05_literal_eq_refuted :
   exists (t : ty) (s : str) (v : val),
-    let C := chk model_yload in
+    let C := chk as_is model_yload in
     via_object C t v = AOk (VBool true) /\ is_ok (via_argv C t s) = false /\
-    guard (chk_lit model_yload) t s v = true.
+    guard (chk_lit as_is model_yload) t s v = true.
 Proof. exists (TLit [LInt 1; LInt 2]), [116;114;117;101]%N, (VBool true). exact literal_eq_witness. Qed.
